@@ -271,7 +271,7 @@ pub fn audit(prop: &str) -> serde_json::Value {
             "7 history shapes": "CLOSED: restart on every crash image that holds an orphan, restart of the worker pipeline on LocalFs, sends after shutdown, last batch left in the sink at shutdown, emptied-then-refilled buffer after failed flushes",
             "8 node-global state": "CLOSED: cached manifest vs store (reload per flush), shared temp-manifest name, the mailbox / sink shared by the three tasks. OPEN (stated): WriteBuffer's segment_counter restarts at 0 in a second incarnation and its segments are never listed by a manifest: recovery does not read that pipeline at all — only C12's third sentence applies to it",
             "9 observations": "CLOSED: every field of the stored manifest (MAN / AMAN: version, replica id, next id, per segment id / count / size / min / max stamp, key derived from id), pending_count / pending_bytes after every push and flush, store-call count, recovered deltas, which updates are missing after shutdown",
-            "10 finding absorption": "CLOSED: the new finding is keyed by cause (WriteBuffer::flush returned Err and pending shrank); any other discarded accepted update = C12:write-buffer:accepted-update-discarded / C12:accepted-update-discarded (violations)",
+            "10 finding absorption": "CLOSED: the defect found (fixed: ed7c4a2) was keyed by cause (WriteBuffer::flush returned Err and pending shrank), its witness is a corpus case that must pass; any other discarded accepted update = C12:write-buffer:accepted-update-discarded / C12:accepted-update-discarded (violations)",
             "11 harness fragility": "CLOSED: a process that cannot restart or recover on a crash image is a finding (was: expect → harness exit, round-5 seed C12-manifest-load-promotes-leftover-tmp), every case under a panic guard, scratch directories below the run's output directory and removed, empty-cell assertions, source-derived capacity / entry tables"
         }),
         "C13" => json!({
